@@ -237,7 +237,10 @@ func ensureBuild(needRace bool) *build {
 		}
 		bargs := []string{"test", "-c", "-trimpath", "-vet=off", "-overlay", filepath.Join(ovl, "overlay.json"), "-o", outBin}
 		if race {
-			bargs = append(bargs, "-race")
+			// the simulator and the harness are compiled without race instrumentation: their own shared state
+			// (network queues, yield bookkeeping) must neither be reported nor create happens-before edges
+			// between frp goroutines that the real system would not have
+			bargs = append(bargs, "-race", "-gcflags=verif/sim/...=-race=false", "-gcflags=github.com/fatedier/frp/verifharness=-race=false")
 		}
 		bargs = append(bargs, "./verifharness")
 		return run(tree, env, goBin, bargs...)
@@ -317,7 +320,7 @@ func execRun(b *build, in RunInput, runDir string, wallLimit time.Duration) *Res
 	cmd.Env = []string{
 		"VERIF_RUN=" + inPath, "GOMAXPROCS=1", "GOGC=off", "GOMEMLIMIT=3GiB",
 		"GODEBUG=asyncpreemptoff=1,randautoseed=0", "PATH=/usr/bin:/bin", "HOME=/tmp", "TZ=UTC",
-		"GORACE=halt_on_error=0 history_size=2",
+		"GORACE=halt_on_error=0 history_size=2 exitcode=0",
 		"http_proxy=", "HTTP_PROXY=", "https_proxy=", "no_proxy=*",
 	}
 	var stderr bytes.Buffer
